@@ -96,18 +96,56 @@ def cli_part(v):
                 v.violation({"part": "cli-exclude", "patterns": pats}, {"rc": rc, "mentions": bad, "out": (out + err)[-800:]})
             else:
                 ok += 1
-        # diff policy: skip drop_table / drop_column / drop_index
-        for policy, forbidden in (("drop_table = true", ["DROP TABLE `gone`"]), ("drop_column = true\n      drop_index = true", ["DROP COLUMN", "DROP INDEX"]),
-                                  ("add_column = true", ["ADD COLUMN"])):
-            n += 1
-            cfg = os.path.join(ws.root, "atlas.hcl")
-            open(cfg, "w").write('env "dev" {\n  url = "%s"\n  src = "file://%s"\n  diff {\n    skip {\n      %s\n    }\n  }\n}\n' % (ws.url(), desired, policy))
-            rc, out, err = ws.atlas("schema", "apply", "--env", "dev", "-c", "file://" + cfg, "--dry-run")
-            bad = [f for f in forbidden if f in out]
-            if rc != 0 or bad:
-                v.violation({"part": "cli-skip", "policy": policy}, {"rc": rc, "mentions": bad, "out": (out + err)[-800:]})
+        # diff policy: skip drop_table / drop_column / drop_index; the policy written in the env, at project level (inherited by an env without a
+        # diff block, and by an env whose diff block holds only driver settings), and overridden by the env
+        def config(where, policy):
+            skip = "diff {\n    skip {\n      %s\n    }\n  }" % policy
+            if where == "env":
+                return 'env "dev" {\n  url = "%s"\n  src = "file://%s"\n  %s\n}\n' % (ws.url(), desired, skip)
+            if where == "project":
+                return '%s\nenv "dev" {\n  url = "%s"\n  src = "file://%s"\n}\n' % (skip.replace("\n  ", "\n"), ws.url(), desired)
+            if where == "project+env-driver-settings":
+                return '%s\nenv "dev" {\n  url = "%s"\n  src = "file://%s"\n  diff {\n    concurrent_index {\n      create = true\n    }\n  }\n}\n' % (skip.replace("\n  ", "\n"), ws.url(), desired)
+            # project says nothing is skipped that matters, the env carries the policy
+            return 'diff {\n  skip {\n    rename_constraint = true\n  }\n}\nenv "dev" {\n  url = "%s"\n  src = "file://%s"\n  %s\n}\n' % (ws.url(), desired, skip)
+        for where in ("env", "project", "project+env-driver-settings", "env-overrides-project"):
+            for policy, forbidden in (("drop_table = true", ["DROP TABLE `gone`"]), ("drop_column = true\n      drop_index = true", ["DROP COLUMN", "DROP INDEX"]),
+                                      ("add_column = true", ["ADD COLUMN"])):
+                n += 1
+                cfg = os.path.join(ws.root, "atlas.hcl")
+                open(cfg, "w").write(config(where, policy))
+                rc, out, err = ws.atlas("schema", "apply", "--env", "dev", "-c", "file://" + cfg, "--dry-run")
+                bad = [f for f in forbidden if f in out]
+                if rc != 0 or bad:
+                    v.violation({"part": "cli-skip", "policy": policy, "where": where, "rebuild_forced": False}, {"rc": rc, "mentions": bad, "out": (out + err)[-800:], "config": config(where, policy)})
+                else:
+                    ok += 1
+        # a skipped drop next to a change that makes SQLite re-create the table: the column / index must survive the rebuild
+        n += 1
+        ws2 = cli.WS()
+        try:
+            cli.sql(ws2.db, "CREATE TABLE secret (id integer NOT NULL, x text, y text); CREATE INDEX secret_x ON secret (x);")
+            d2 = os.path.join(ws2.root, "d.hcl")
+            open(d2, "w").write('schema "main" {\n}\ntable "secret" {\n  schema = schema.main\n  column "id" {\n    null = false\n    type = integer\n  }\n'
+                                '  column "y" {\n    null = false\n    type = text\n    default = "q"\n  }\n}\n')
+            cfg = os.path.join(ws2.root, "atlas.hcl")
+            open(cfg, "w").write('env "dev" {\n  url = "%s"\n  src = "file://%s"\n  diff {\n    skip {\n      drop_column = true\n      drop_index = true\n    }\n  }\n}\n' % (ws2.url(), d2))
+            rc, out, err = ws2.atlas("schema", "apply", "--env", "dev", "-c", "file://" + cfg, "--dry-run")
+            lost = []
+            if "new_secret" in out:
+                create = out[out.index("CREATE TABLE `new_secret`"):].split(";")[0]
+                if "`x`" not in create:
+                    lost.append("column x is not part of the re-created table")
+                if "secret_x" not in out[out.index("RENAME"):]:
+                    lost.append("index secret_x is not re-created")
+            if "DROP COLUMN" in out or "DROP INDEX" in out:
+                lost.append("explicit drop")
+            if rc != 0 or lost:
+                v.violation({"part": "cli-skip", "policy": "drop_column = true, drop_index = true", "where": "env", "rebuild_forced": True}, {"rc": rc, "lost": lost, "out": (out + err)[-1200:]})
             else:
                 ok += 1
+        finally:
+            ws2.close()
     finally:
         ws.close()
     return {"n": n, "ok": ok}
